@@ -7,9 +7,9 @@ Two executable models (core Lean only; the compiled driver `drv_bparena` imports
 
 ## 1. `BpArena` — the registry arena, operation-sequence level
 
-Everything below runs with `rcu_registry_lock` held and all signals blocked, so each operation is
-one atomic step; the quantifier of the property is the set of all operation sequences, any
-number of threads, any sequence of `mremap` outcomes.
+Every operation below is one critical section of the C code (`rcu_registry_lock` or `init_lock`
+held, all signals blocked), so it is one atomic step; the quantifier of the property is the set of
+all sequences of such sections, any number of threads, any sequence of `mremap` outcomes.
 
 * `struct registry_chunk {capacity, used, readers[]}`  ↦  `Chunk {cap, used, slots}`;
   a slot is `none` (`alloc = 0`, `tid = 0`) or `some t` (`alloc = 1`, `tid = t`).
@@ -136,7 +136,8 @@ inductive Out
 `init_lock`) followed by `register` (`add_thread()` under `rcu_registry_lock`); thread exit is
 `unregister` (`remove_thread()` under `rcu_registry_lock`) followed by `libExit` (`urcu_bp_exit()`
 under `init_lock`).  The two halves are separate steps because the locks are different: other
-threads (and signal handlers of the same thread) may run in between.  The guards
+threads may run in between (and, in the code before 760a93b, a signal handler of the same thread
+between `unregister` and `libExit`).  The guards
 `registry.length < refcount` express the calling discipline of the C code: `add_thread` runs only
 after the caller's own `_urcu_bp_init`, `urcu_bp_exit` only after the caller's own
 `remove_thread` (or, in the destructor, balancing the constructor's `_urcu_bp_init`). -/
@@ -174,6 +175,19 @@ def step (s : State) : Op → Option (State × Out)
       if s.refcount - 1 = 0 then some ({ s with refcount := 0, chunks := [], nexp := 0 }, .unit true)
       else some ({ s with refcount := s.refcount - 1 }, .unit false)
     else none
+
+/-- `find_chunk(reader)` on addresses: `layout` lists, per chunk in list order, the address of
+`readers[0]` and the capacity; `sz = sizeof(struct urcu_bp_reader)`.  Returns the position of the
+first chunk whose `[&readers[0], &readers[capacity])` contains the address `a` (`k` = position of
+the head of `layout`).  The arena `step` identifies a reader by its slot id `(chunk, index)`;
+`find_chunk_correct` (Props/C15Bp) shows that this is what `find_chunk` computes from the
+address when the mappings do not overlap. -/
+def findChunk (sz : Nat) : List (Nat × Nat) → Nat → Nat → Option Nat
+  | [], _, _ => none
+  | (base, cap) :: rest, a, k =>
+    if a < base then findChunk sz rest a (k + 1)
+    else if a ≥ base + cap * sz then findChunk sz rest a (k + 1)
+    else some k
 
 /-- run a list of operations, collecting outputs -/
 def runOps : State → List Op → Option (State × List Out)
